@@ -93,7 +93,7 @@ def distances(bits, rng, thorough):
         for d in ((-8, -4, -2, 0, 2, 4, 8) if thorough else (-4, -2, 0, 2, 4)):
             ds.add((1 << k) + d)
             ds.add(-(1 << k) + d)
-    for _ in range(16 if thorough else 2):
+    for _ in range(8 if thorough else 2):
         k = rng.randint(2, bits)
         ds.add(rng.randint(-(1 << k), 1 << k) & ~3)
         ds.add(rng.randint(-(1 << k), 1 << k) & ~1)
